@@ -2377,8 +2377,12 @@ class PyCdlib:
                 self._cdfp.seek(backup_offset)
                 tmp_isohybrid.parse_secondary_gpt_header(self._cdfp.read(512))
 
-                parts_offset = (tmp_isohybrid.secondary_gpt.header.current_lba * 512) - (tmp_isohybrid.secondary_gpt.header.num_parts * 128)
-                if parts_offset < 0 or parts_offset > iso_end:
+                # The partition entries end where the backup header starts, so
+                # the end has to be inside of the ISO as well; that also keeps
+                # the number of bytes to read below the size of the ISO.
+                parts_end = tmp_isohybrid.secondary_gpt.header.current_lba * 512
+                parts_offset = parts_end - (tmp_isohybrid.secondary_gpt.header.num_parts * 128)
+                if parts_offset < 0 or parts_end > iso_end:
                     raise pycdlibexception.PyCdlibInvalidISO('Backup GPT partition entries are outside of the ISO')
                 self._cdfp.seek(parts_offset)
                 tmp_isohybrid.parse_secondary_gpt_partitions(self._cdfp.read(tmp_isohybrid.secondary_gpt.header.num_parts * 128))
